@@ -5,6 +5,7 @@ mod c01;
 mod c02;
 mod c03;
 mod c05;
+mod c09;
 mod sp;
 mod case;
 mod gen;
@@ -51,6 +52,15 @@ fn main() {
                 "C06" | "C07" => {
                     rep = Report::new(&prop, "ordered pairs of trees on a common leaf set (every ordered pair of leaf-labelled shapes up to a leaf bound, or a sample per first tree above 150 labelled shapes; random pairs to 40 leaves by subtree regrafting or independent shapes), both root styles, plus pairs with different leaf sets (C06) / missing lengths (C07); a case is one ordered pair; non-trivial = the trees differ in at least one split (C06) / any pair (C07)");
                     c05::run_pairs(&prop, tier == "thorough", seed, &driver, &mut rep);
+                }
+                "C09" | "C10" | "C12" => {
+                    let rule = match prop.as_str() {
+                        "C09" => "trees (every shape up to a node bound with three length masks, random trees) in four arena layouts; every ordered pair of node ids incl. removed and out-of-range ids (sampled above a pair bound): root path, common ancestor, distance; a case is one tree; non-trivial = present and absent branch lengths both occur",
+                        "C10" => "trees (every shape up to a node bound, random trees to 150 nodes) in four arena layouts incl. removed slots; every start node incl. removed and out-of-range ids x seven traversal/listing queries; a case is one tree; non-trivial = at least three live nodes",
+                        _ => "trees (every shape up to a node bound with three length masks, every rooted binary shape up to a leaf bound, random and hand-binarised random trees, trees after random edit histories) in four arena layouts; all statistics; a case is one tree; non-trivial = rooted binary with at least three leaves",
+                    };
+                    rep = Report::new(&prop, rule);
+                    c09::run(&prop, tier == "thorough", seed, &driver, &mut rep);
                 }
                 "C02" => {
                     rep = Report::new("C02", "strings fed to Tree::from_newick (corpus, every string up to a length bound over the token alphabet ( ) , ; : [ ] \" a 1 space, every short float lexeme, mutated valid Newick, random Unicode); a case is one string; non-trivial = contains at least one structural token");
